@@ -77,4 +77,18 @@
   #define XENIUM_ARCH_ARM
 #endif
 
+#if defined(MPOETER_XENIUM_VERIF)
+// Verification hooks (used only by the replay programs of the verification machinery; see MANIFEST.json "hooks").
+// Without MPOETER_XENIUM_VERIF the macro expands to nothing and no symbol is added.
+inline void (*xenium_verif_point_hook)(const char* id) = nullptr;
+  #define XENIUM_VERIF_POINT(id)       \
+    do {                               \
+      if (::xenium_verif_point_hook) { \
+        ::xenium_verif_point_hook(id); \
+      }                                \
+    } while (0)
+#else
+  #define XENIUM_VERIF_POINT(id)
+#endif
+
 #endif
